@@ -1,1 +1,799 @@
-(* placeholder *)
+(* C15 — Published connection states and InitialSyncFinished are truthful.
+   Rust: src/server/mod.rs (server_connected, server_disconnected, run conditions),
+   src/client/mod.rs (set_client_to_connecting, verify_client_connected, set_client_to_disconnected),
+   src/client/receiver.rs (FinishedInitialSync => InitialSyncFinished), src/server/initial_sync.rs.
+   Everything is quantified over all executable orders, all oracles and all application
+   operations.  Frame lemmas: SessionLemmas.v. *)
+From stdpp Require Import gmap list.
+From Coq Require Import NArith Lia.
+From RecordUpdate Require Import RecordSet.
+From BS Require Import Sync.Types Sync.Model Sync.Proofs.SessionLemmas.
+Import RecordSetNotations.
+Local Open Scope N_scope.
+
+(* ================================================================================================ *)
+(* 0. Runs of one peer, positions inside a frame                                                     *)
+(* ================================================================================================ *)
+
+Fixpoint prun (pr : peer_state) (l : list (app_op + frame_oracle)) : peer_state :=
+  match l with
+  | [] => pr
+  | inl op :: l' => prun (app_step pr op) l'
+  | inr o :: l' => prun (frame pr o) l'
+  end.
+
+Lemma prun_app pr l1 l2 : prun pr (l1 ++ l2) = prun (prun pr l1) l2.
+Proof. revert pr; induction l1 as [|[op|o] l1 IH]; intros pr; cbn [prun app]; auto. Qed.
+
+(* the state after PreUpdate and StateTransition, and after the systems of a prefix of the order *)
+Definition frame_start (pr : peer_state) (o : frame_oracle) : peer_state :=
+  state_transition (pre_update (pr <| p_out := [] |>) o).
+Definition run_systems (pr : peer_state) (l : list sysid) (o : frame_oracle) : peer_state :=
+  foldl (fun pr s => run_system pr s o) pr l.
+Definition frame_at (pr : peer_state) (o : frame_oracle) (l1 : list sysid) : peer_state :=
+  run_systems (frame_start pr o) l1 o.
+Definition frame_end (pr : peer_state) : peer_state :=
+  last_schedule (match p_panic pr with Some _ => pr | None => flush pr end).
+
+(* P holds at every position of the Update schedule of this frame (before each system, and
+   after the last one) *)
+Definition during (pr : peer_state) (o : frame_oracle) (P : peer_state -> Prop) : Prop :=
+  forall l1 l2, p_order pr = l1 ++ l2 -> P (frame_at pr o l1).
+
+(* each of the five state systems occurs exactly once, anywhere; everything else is arbitrary *)
+Definition once (s : sysid) (l : list sysid) : Prop :=
+  exists l1 l2, l = l1 ++ s :: l2 /\ s ∉ l1 /\ s ∉ l2.
+Definition order_has_state_systems (l : list sysid) : Prop :=
+  once SSrvConnected l /\ once SSrvDisconnected l /\ once SCliConnecting l /\ once SCliVerify l
+  /\ once SCliDisconnected l.
+
+(* the transitions ClientState may make *)
+Definition cedge (a b : cstate) : Prop :=
+  match a, b with
+  | CliDisconnected, CliConnecting | CliConnecting, CliConnected
+  | CliConnected, CliDisconnected | CliConnecting, CliDisconnected => True
+  | _, _ => False
+  end.
+
+(* ---------- session abstraction of one schedule position -------------------------------------- *)
+
+Definition bit (pr : peer_state) (k : N) : bool := default false (p_cond_bit pr !! k).
+Definition bitupd (k : N) (ex : bool) (m : gmap N bool) : gmap N bool :=
+  if ex then <[k := true]> m else if default false (m !! k) then <[k := false]> m else m.
+Definition srv_added (pr : peer_state) : bool :=
+  match n_srv_transport pr with Some t => last_run pr (ckey 10) <? t | None => false end.
+Definition cli_added (pr : peer_state) : bool :=
+  match n_cli_transport pr with Some (_, t) => last_run pr (ckey 23) <? t | None => false end.
+
+(* the body of a state system runs *)
+Definition fires (pr : peer_state) (s : sysid) : bool :=
+  match s with
+  | SSrvConnected => n_setup pr && negb (is_srv_connected (s_server pr)) && srv_added pr
+  | SSrvDisconnected =>
+      n_setup pr && is_srv_connected (s_server pr) && negb (is_some (n_srv_transport pr)) && bit pr 11
+  | SCliConnecting => n_setup pr && is_cli_disconnected (s_client pr) && cli_added pr
+  | SCliVerify => n_setup pr && is_some (n_cli_transport pr) && is_cli_connecting (s_client pr)
+  | SCliDisconnected =>
+      n_setup pr && negb (is_cli_disconnected (s_client pr)) && negb (is_some (n_cli_transport pr)) && bit pr 25
+  | _ => false
+  end.
+
+Definition is_rconnected (r : renet_status) : bool := match r with RConnected => true | _ => false end.
+
+Definition next_client_after (pr : peer_state) (s : sysid) : option cstate :=
+  match s with
+  | SCliConnecting => if fires pr s then Some CliConnecting else s_next_client pr
+  | SCliVerify => if fires pr s && is_rconnected (n_status pr) then Some CliConnected else s_next_client pr
+  | SCliDisconnected => if fires pr s then Some CliDisconnected else s_next_client pr
+  | _ => s_next_client pr
+  end.
+Definition next_server_after (pr : peer_state) (s : sysid) : option sstate :=
+  match s with
+  | SSrvConnected => if fires pr s then Some SrvConnected else s_next_server pr
+  | SSrvDisconnected => if fires pr s then Some SrvDisconnected else s_next_server pr
+  | _ => s_next_server pr
+  end.
+Definition bits_after (pr : peer_state) (s : sysid) : gmap N bool :=
+  match s with
+  | SSrvDisconnected => bitupd 11 (is_some (n_srv_transport pr)) (p_cond_bit pr)
+  | SCliDisconnected => bitupd 25 (is_some (n_cli_transport pr)) (p_cond_bit pr)
+  | _ => p_cond_bit pr
+  end.
+
+(* the tick counter only advances; new last-run entries are stamped inside the interval *)
+Definition clock_le (pr pr' : peer_state) : Prop :=
+  p_tick pr <= p_tick pr' /\
+  forall k t, p_last_run pr' !! k = Some t -> p_last_run pr !! k = Some t \/ (p_tick pr <= t /\ t < p_tick pr').
+
+Lemma clock_le_refl pr : clock_le pr pr.
+Proof. split; [lia|]. auto. Qed.
+Lemma clock_le_trans a b c : clock_le a b -> clock_le b c -> clock_le a c.
+Proof.
+  intros [H1 H2] [H3 H4]. split; [lia|]. intros k t H.
+  destruct (H4 k t H) as [H5|H5]; [|right; lia].
+  destruct (H2 k t H5) as [H6|H6]; [auto|right; lia].
+Qed.
+
+Lemma clock_le_insert pr pr' k :
+  p_tick pr' = p_tick pr + 1 -> p_last_run pr' = <[k := p_tick pr]> (p_last_run pr) -> clock_le pr pr'.
+Proof.
+  intros Ht Hl. split; [lia|]. intros k' t. rewrite Hl.
+  destruct (decide (k = k')) as [->|Hne].
+  - rewrite lookup_insert. intros [= <-]. right. lia.
+  - rewrite lookup_insert_ne by exact Hne. auto.
+Qed.
+
+#[local] Instance sysid_eq_dec : EqDecision sysid.
+Proof. solve_decision. Defined.
+
+(* what one schedule position does to the session fields (exact for the state systems) *)
+Definition fin_after (pr : peer_state) (s : sysid) (pr' : peer_state) : N :=
+  match s with
+  | SSrvConnected => if fires pr s then p_finished_events pr + 1 else p_finished_events pr
+  | SCliPoll => p_finished_events pr'
+  | _ => p_finished_events pr
+  end.
+
+Record pos_spec (pr : peer_state) (s : sysid) (pr' : peer_state) : Prop := {
+  ps_client : s_client pr' = s_client pr;
+  ps_server : s_server pr' = s_server pr;
+  ps_setup : n_setup pr' = n_setup pr;
+  ps_order : p_order pr' = p_order pr;
+  ps_next_client : s_next_client pr' = next_client_after pr s;
+  ps_next_server : s_next_server pr' = next_server_after pr s;
+  ps_bits : p_cond_bit pr' = bits_after pr s;
+  ps_tv : tv pr' = tv pr;
+  ps_fin : p_finished_events pr' = fin_after pr s pr';
+  ps_clock : clock_le pr pr';
+  ps_last_run : forall k, k <> sys_key s -> k <> ckey (sys_key s) -> p_last_run pr' !! k = p_last_run pr !! k;
+  ps_cmdq : forall k, k <> sys_key s -> p_cmdq pr' !! k = p_cmdq pr !! k;
+}.
+
+Lemma g1k_elim k a b :
+  g1k k a = g1k k b ->
+  c1 a = c1 b /\ tv a = tv b /\ p_finished_events a = p_finished_events b
+  /\ delete k (p_cmdq a) = delete k (p_cmdq b).
+Proof.
+  intros H. repeat split.
+  - exact (f_equal (fun x => x.1.1.1) H).
+  - exact (f_equal (fun x => x.1.1.2) H).
+  - exact (f_equal (fun x => x.1.2) H).
+  - exact (f_equal snd H).
+Qed.
+
+Lemma g2k_elim k a b :
+  g2k k a = g2k k b ->
+  c1 a = c1 b /\ tv a = tv b /\ delete k (p_cmdq a) = delete k (p_cmdq b).
+Proof.
+  intros H. repeat split.
+  - exact (f_equal (fun x => x.1.1) H).
+  - exact (f_equal (fun x => x.1.2) H).
+  - exact (f_equal snd H).
+Qed.
+
+Lemma delete_eq_lookup {A} k (m1 m2 : gmap N A) k' :
+  delete k m1 = delete k m2 -> k' <> k -> m1 !! k' = m2 !! k'.
+Proof.
+  intros H Hne. rewrite <- (lookup_delete_ne m1 k k') by auto.
+  rewrite <- (lookup_delete_ne m2 k k') by auto. rewrite H. reflexivity.
+Qed.
+
+Lemma neutral_after pr s :
+  neutral_sys s = true ->
+  next_client_after pr s = s_next_client pr /\ next_server_after pr s = s_next_server pr
+  /\ bits_after pr s = p_cond_bit pr /\ (forall pr', fin_after pr s pr' = p_finished_events pr).
+Proof. destruct s; try discriminate; intros _; repeat split; reflexivity. Qed.
+
+Lemma pos_spec_id pr s :
+  (next_client_after pr s = s_next_client pr) -> (next_server_after pr s = s_next_server pr) ->
+  (bits_after pr s = p_cond_bit pr) -> (fin_after pr s pr = p_finished_events pr) -> pos_spec pr s pr.
+Proof. intros; split; auto using clock_le_refl. Qed.
+
+(* a state that differs from [tickonly pr k] in none of the g1 fields *)
+Lemma pos_spec_tickonly pr s pr' :
+  c1 pr' = c1 (tickonly pr (sys_key s)) -> tv pr' = tv pr ->
+  delete (sys_key s) (p_cmdq pr') = delete (sys_key s) (p_cmdq pr) ->
+  (next_client_after pr s = s_next_client pr) -> (next_server_after pr s = s_next_server pr) ->
+  (bits_after pr s = p_cond_bit pr) -> (p_finished_events pr' = fin_after pr s pr') -> pos_spec pr s pr'.
+Proof.
+  intros Hc Ht Hq H1 H2 H3 H4. unfold c1, tickonly, end_run in Hc. cbn in Hc.
+  injection Hc as E1 E2 E3 E4 E5 E6 E7 E8 E9.
+  split; try congruence.
+  - eapply clock_le_insert; eauto.
+  - intros k Hk _. rewrite E9. apply lookup_insert_ne. auto.
+  - intros k Hk. eapply delete_eq_lookup; eauto.
+Qed.
+
+Lemma run_system_cases pr s o :
+  p_panic pr = None -> neutral_sys s = true ->
+  run_system pr s o = pr \/ run_system pr s o = run_body pr s o.
+Proof.
+  intros Hp Hs. unfold run_system. rewrite Hp.
+  destruct s; try discriminate Hs; cbv beta iota zeta; repeat case_match; auto.
+Qed.
+
+Lemma run_system_panicked pr s o x : p_panic pr = Some x -> run_system pr s o = pr.
+Proof. intros H. unfold run_system. rewrite H. reflexivity. Qed.
+
+Lemma run_system_spec_neutral pr s o :
+  p_panic pr = None -> neutral_sys s = true -> pos_spec pr s (run_system pr s o).
+Proof.
+  intros Hp Hs. destruct (neutral_after pr s Hs) as (N1 & N2 & N3 & N4).
+  destruct (run_system_cases pr s o Hp Hs) as [-> | ->].
+  - apply pos_spec_id; auto.
+  - destruct (g1k_elim _ _ _ (run_body_neutral pr s o Hs)) as (Hc & Ht & Hf & Hq).
+    apply pos_spec_tickonly; auto.
+    rewrite N4. exact Hf.
+Qed.
+
+Lemma run_system_spec_clipoll pr o :
+  p_panic pr = None -> pos_spec pr SCliPoll (run_system pr SCliPoll o).
+Proof.
+  intros Hp. unfold run_system. rewrite Hp. cbv beta iota zeta.
+  destruct (client_gate pr).
+  - destruct (g2k_elim _ _ _ (run_body_clipoll pr o)) as (Hc & Ht & Hq).
+    apply pos_spec_tickonly; auto.
+  - apply pos_spec_id; reflexivity.
+Qed.
+
+Ltac spec_fin :=
+  split; cbn;
+  [ reflexivity | reflexivity | reflexivity | reflexivity | reflexivity | reflexivity | reflexivity
+  | reflexivity | reflexivity | .. ].
+
+Lemma clock_le_2 pr pr' k1 k2 :
+  p_tick pr' = p_tick pr + 1 + 1 ->
+  p_last_run pr' = <[k2 := p_tick pr + 1]> (<[k1 := p_tick pr]> (p_last_run pr)) -> clock_le pr pr'.
+Proof.
+  intros Ht Hl. split; [lia|]. intros k' t. rewrite Hl.
+  destruct (decide (k2 = k')) as [->|Hne].
+  - rewrite lookup_insert. intros [= <-]. right. lia.
+  - rewrite lookup_insert_ne by exact Hne.
+    destruct (decide (k1 = k')) as [->|Hne'].
+    + rewrite lookup_insert. intros [= <-]. right. lia.
+    + rewrite lookup_insert_ne by exact Hne'. auto.
+Qed.
+
+Ltac spec_goal :=
+  first [ reflexivity | assumption | congruence | (split; cbn; [lia | intros; auto]; fail) | (eapply clock_le_insert; reflexivity)
+        | (eapply clock_le_2; reflexivity)
+        | (intros; cbn; rewrite ?lookup_insert_ne by (unfold ckey in *; cbn in *; congruence); reflexivity) ].
+
+Ltac atoms pr :=
+  destruct (n_setup pr) eqn:?; destruct (s_client pr) eqn:?; destruct (s_server pr) eqn:?.
+
+Lemma run_system_spec_clidisconnected pr o :
+  p_panic pr = None -> pos_spec pr SCliDisconnected (run_system pr SCliDisconnected o).
+Proof.
+  intros Hp. unfold run_system. rewrite Hp. cbv beta iota zeta.
+  unfold cond_resource_removed. cbn [sys_key].
+  destruct (n_cli_transport pr) as [[h t]|] eqn:Et; cbn [is_some];
+  (destruct (p_cond_bit pr !! 25) as [[]|] eqn:Eb; cbn [default]);
+  destruct (n_setup pr) eqn:Es; destruct (s_client pr) eqn:Ec; cbn.
+  all: split; unfold next_client_after, next_server_after, bits_after, fin_after, fires, bit, bitupd, tv; cbn;
+    rewrite ?Et, ?Eb, ?Es, ?Ec; cbn.
+  all: spec_goal.
+Qed.
+
+Ltac spec_unf :=
+  split; unfold next_client_after, next_server_after, bits_after, fin_after, fires, bit, bitupd, tv,
+    srv_added, cli_added, last_run; cbn.
+
+Lemma run_system_spec_srvdisconnected pr o :
+  p_panic pr = None -> pos_spec pr SSrvDisconnected (run_system pr SSrvDisconnected o).
+Proof.
+  intros Hp. unfold run_system. rewrite Hp. cbv beta iota zeta.
+  unfold cond_resource_removed. cbn [sys_key].
+  destruct (n_srv_transport pr) as [t|] eqn:Et; cbn [is_some];
+  (destruct (p_cond_bit pr !! 11) as [[]|] eqn:Eb; cbn [default]);
+  destruct (n_setup pr) eqn:Es; destruct (s_server pr) eqn:Ec; cbn.
+  all: spec_unf; rewrite ?Et, ?Eb, ?Es, ?Ec; cbn.
+  all: spec_goal.
+Qed.
+
+Lemma run_system_spec_srvconnected pr o :
+  p_panic pr = None -> pos_spec pr SSrvConnected (run_system pr SSrvConnected o).
+Proof.
+  intros Hp. unfold run_system. rewrite Hp. cbv beta iota zeta.
+  unfold cond_resource_added, begin_run, end_run, last_run. cbn [sys_key].
+  destruct (n_srv_transport pr) as [t|] eqn:Et; cbn;
+  [destruct (default 0 (p_last_run pr !! ckey 10) <? t) eqn:El|];
+  destruct (n_setup pr) eqn:Es; destruct (s_server pr) eqn:Ec; cbn.
+  all: spec_unf; rewrite ?Et, ?Es, ?Ec; cbn; rewrite ?El; cbn.
+  all: spec_goal.
+Qed.
+
+Lemma run_system_spec_cliconnecting pr o :
+  p_panic pr = None -> pos_spec pr SCliConnecting (run_system pr SCliConnecting o).
+Proof.
+  intros Hp. unfold run_system. rewrite Hp. cbv beta iota zeta.
+  unfold cond_resource_added, begin_run, end_run, last_run. cbn [sys_key].
+  destruct (n_cli_transport pr) as [[h t]|] eqn:Et; cbn;
+  [destruct (default 0 (p_last_run pr !! ckey 23) <? t) eqn:El|];
+  destruct (n_setup pr) eqn:Es; destruct (s_client pr) eqn:Ec; cbn.
+  all: spec_unf; rewrite ?Et, ?Es, ?Ec; cbn; rewrite ?El; cbn.
+  all: spec_goal.
+Qed.
+
+Lemma run_system_spec_cliverify pr o :
+  p_panic pr = None -> pos_spec pr SCliVerify (run_system pr SCliVerify o).
+Proof.
+  intros Hp. unfold run_system. rewrite Hp. cbv beta iota zeta.
+  unfold run_body, verify_client_connected, begin_run, end_run, push_cmd. cbn [sys_key].
+  destruct (n_cli_transport pr) as [[h t]|] eqn:Et; cbn;
+  destruct (n_setup pr) eqn:Es; destruct (s_client pr) eqn:Ec; cbn;
+  try (destruct (n_status pr) eqn:En; cbn; try (destruct (t_promo pr) eqn:Ep; cbn)).
+  all: spec_unf; rewrite ?Et, ?Es, ?Ec; cbn; rewrite ?En; cbn.
+  all: spec_goal.
+Qed.
+
+Lemma run_system_spec pr s o :
+  p_panic pr = None -> s <> SSync -> pos_spec pr s (run_system pr s o).
+Proof.
+  intros Hp Hs. destruct (neutral_sys s) eqn:Hn; [apply run_system_spec_neutral; auto|].
+  destruct s; try discriminate Hn; try congruence;
+    auto using run_system_spec_clipoll, run_system_spec_cliverify, run_system_spec_cliconnecting,
+      run_system_spec_srvconnected, run_system_spec_srvdisconnected, run_system_spec_clidisconnected.
+Qed.
+
+(* ---------- flush as a schedule position, panicked states -------------------------------------- *)
+
+Lemma flush_c1 pr : c1 (flush pr) = c1 pr /\ p_finished_events (flush pr) = p_finished_events pr.
+Proof. pose proof (cf_flush pr) as H. split; [exact (f_equal fst H) | exact (f_equal snd H)]. Qed.
+
+Lemma run_system_sync pr o : p_panic pr = None -> run_system pr SSync o = flush pr.
+Proof. intros H. unfold run_system. rewrite H. reflexivity. Qed.
+
+(* the fields every schedule position leaves alone *)
+Definition cA (pr : peer_state) := (s_client pr, s_server pr, n_setup pr, p_order pr).
+
+Lemma c1_cA a b : c1 a = c1 b -> cA a = cA b.
+Proof. unfold c1, cA. intros H. injection H; intros; congruence. Qed.
+
+Lemma run_system_cA pr s o : cA (run_system pr s o) = cA pr.
+Proof.
+  destruct (p_panic pr) eqn:Hp; [erewrite run_system_panicked; eauto|].
+  destruct (decide (s = SSync)) as [->|Hs].
+  - rewrite run_system_sync by auto. apply c1_cA, flush_c1.
+  - destruct (run_system_spec pr s o Hp Hs). unfold cA. congruence.
+Qed.
+
+Lemma run_systems_snoc pr l s o : run_systems pr (l ++ [s]) o = run_system (run_systems pr l o) s o.
+Proof. unfold run_systems. rewrite foldl_app. reflexivity. Qed.
+
+Lemma run_systems_app pr l1 l2 o : run_systems pr (l1 ++ l2) o = run_systems (run_systems pr l1 o) l2 o.
+Proof. unfold run_systems. apply foldl_app. Qed.
+
+Lemma run_systems_ind (P : list sysid -> peer_state -> Prop) st o :
+  P [] st ->
+  (forall l s m, m = run_systems st l o -> P l m -> P (l ++ [s]) (run_system m s o)) ->
+  forall l, P l (run_systems st l o).
+Proof.
+  intros H0 Hs l. induction l as [|s l IH] using rev_ind; [exact H0|].
+  rewrite run_systems_snoc. apply Hs; [reflexivity|exact IH].
+Qed.
+
+Lemma run_systems_cA st l o : cA (run_systems st l o) = cA st.
+Proof.
+  apply (run_systems_ind (fun _ m => cA m = cA st)); [reflexivity|].
+  intros ? s m _ IH. rewrite run_system_cA. exact IH.
+Qed.
+
+Lemma run_systems_panicked pr l o x : p_panic pr = Some x -> run_systems pr l o = pr.
+Proof.
+  intros H. induction l as [|s l IH] using rev_ind; [reflexivity|].
+  rewrite run_systems_snoc, IH. eapply run_system_panicked; eauto.
+Qed.
+
+(* no panic at the end of the schedule => none at any earlier position *)
+Lemma run_systems_no_panic st l1 l2 o :
+  p_panic (run_systems st (l1 ++ l2) o) = None -> p_panic (run_systems st l1 o) = None.
+Proof.
+  rewrite run_systems_app. destruct (p_panic (run_systems st l1 o)) eqn:E; [|reflexivity].
+  erewrite run_systems_panicked by eauto. rewrite E. discriminate.
+Qed.
+
+(* ---------- PreUpdate + StateTransition ---------------------------------------------------------- *)
+
+Record start_spec (pr : peer_state) (o : frame_oracle) (st : peer_state) : Prop := {
+  ss_client : s_client st = default (s_client pr) (s_next_client pr);
+  ss_server : s_server st = default (s_server pr) (s_next_server pr);
+  ss_next_client : s_next_client st = None;
+  ss_next_server : s_next_server st = None;
+  ss_setup : n_setup st = n_setup pr;
+  ss_order : p_order st = p_order pr;
+  ss_bits : p_cond_bit st = p_cond_bit pr;
+  ss_tv : tv st = tv pr;
+  ss_fin : p_finished_events st = p_finished_events pr;
+  ss_tick : p_tick st = p_tick pr;
+  ss_last_run : p_last_run st = p_last_run pr;
+  ss_cmdq : p_cmdq st = p_cmdq pr;
+  ss_panic : p_panic st = p_panic pr;
+  ss_status : n_status st = default (n_status pr) (fo_status o);
+}.
+
+Lemma frame_start_spec pr o : start_spec pr o (frame_start pr o).
+Proof.
+  unfold frame_start, state_transition, pre_update, send_up. cbv zeta.
+  destruct (fo_status o) as [rs|] eqn:E0; cbn;
+  (destruct (s_next_client pr) as [c|] eqn:E1; cbn);
+  (destruct (s_next_server pr) as [s|] eqn:E2; cbn);
+  repeat case_match; split; cbn; rewrite ?E0, ?E1, ?E2; reflexivity.
+Qed.
+
+Lemma frame_unfold pr o :
+  p_panic pr = None -> frame pr o = frame_end (frame_at pr o (p_order pr)).
+Proof.
+  intros Hp. unfold frame. rewrite Hp. cbv zeta. unfold frame_end, frame_at, run_systems.
+  fold (frame_start pr o). rewrite (ss_order _ _ _ (frame_start_spec pr o)). reflexivity.
+Qed.
+
+Lemma frame_panicked pr o x : p_panic pr = Some x -> frame pr o = pr.
+Proof. intros H. unfold frame. rewrite H. reflexivity. Qed.
+
+Lemma frame_end_c1 pr : c1 (frame_end pr) = c1 pr /\ p_finished_events (frame_end pr) = p_finished_events pr.
+Proof.
+  unfold frame_end, last_schedule. destruct (p_panic pr); [split; reflexivity|].
+  destruct (flush_c1 pr) as [H1 H2]. split; [rewrite <- H1|rewrite <- H2]; reflexivity.
+Qed.
+
+Lemma frame_at_cA pr o l : cA (frame_at pr o l) = (default (s_client pr) (s_next_client pr),
+  default (s_server pr) (s_next_server pr), n_setup pr, p_order pr).
+Proof.
+  unfold frame_at. rewrite run_systems_cA. destruct (frame_start_spec pr o). unfold cA. congruence.
+Qed.
+
+(* ================================================================================================ *)
+(* 1. client_state_path                                                                              *)
+(* ================================================================================================ *)
+
+Definition nc_ok (c : cstate) (n : option cstate) : Prop :=
+  match n with None => True | Some v => cedge c v end.
+(* the pending NextState<ClientState>, if any, is a legal successor of the published state *)
+Definition next_client_legal (pr : peer_state) : Prop := nc_ok (s_client pr) (s_next_client pr).
+
+Lemma next_client_after_ok pr s :
+  nc_ok (s_client pr) (s_next_client pr) -> nc_ok (s_client pr) (next_client_after pr s).
+Proof.
+  intros H. destruct s; try exact H; unfold next_client_after, fires.
+  - destruct (n_setup pr); [|exact H]. destruct (s_client pr); try exact H.
+    cbn. destruct (cli_added pr); [exact I|exact H].
+  - destruct (n_setup pr); [|exact H]. destruct (is_some (n_cli_transport pr)); [|exact H].
+    destruct (s_client pr); try exact H. cbn. destruct (is_rconnected (n_status pr)); [exact I|exact H].
+  - destruct (n_setup pr); [|exact H]. destruct (s_client pr); try exact H; cbn;
+    destruct (is_some (n_cli_transport pr)); try exact H; cbn; destruct (bit pr 25); try exact H; exact I.
+Qed.
+
+Lemma run_system_next_client_legal pr s o :
+  next_client_legal pr -> next_client_legal (run_system pr s o).
+Proof.
+  unfold next_client_legal. intros H.
+  destruct (p_panic pr) eqn:Hp; [erewrite run_system_panicked; eauto|].
+  destruct (decide (s = SSync)) as [->|Hs].
+  - rewrite run_system_sync by auto. destruct (flush_c1 pr) as [Hc _].
+    unfold c1 in Hc. injection Hc; intros. congruence.
+  - destruct (run_system_spec pr s o Hp Hs). rewrite ps_client0, ps_next_client0.
+    apply next_client_after_ok, H.
+Qed.
+
+Lemma frame_next_client_legal pr o : next_client_legal pr -> next_client_legal (frame pr o).
+Proof.
+  intros H. destruct (p_panic pr) eqn:Hp; [erewrite frame_panicked; eauto|].
+  rewrite frame_unfold by auto.
+  assert (next_client_legal (frame_at pr o (p_order pr))) as H1.
+  { unfold frame_at. apply (run_systems_ind (fun _ m => next_client_legal m)).
+    - unfold next_client_legal. rewrite (ss_next_client _ _ _ (frame_start_spec pr o)). exact I.
+    - intros ? s m _. apply run_system_next_client_legal. }
+  unfold next_client_legal in *. destruct (frame_end_c1 (frame_at pr o (p_order pr))) as [Hc _].
+  unfold c1 in Hc. injection Hc; intros. congruence.
+Qed.
+
+Lemma frame_s_client pr o :
+  p_panic pr = None -> s_client (frame pr o) = default (s_client pr) (s_next_client pr).
+Proof.
+  intros Hp. rewrite frame_unfold by auto.
+  destruct (frame_end_c1 (frame_at pr o (p_order pr))) as [Hc _]. apply c1_cA in Hc.
+  rewrite frame_at_cA in Hc. unfold cA in Hc. injection Hc; intros; congruence.
+Qed.
+
+Lemma frame_s_server pr o :
+  p_panic pr = None -> s_server (frame pr o) = default (s_server pr) (s_next_server pr).
+Proof.
+  intros Hp. rewrite frame_unfold by auto.
+  destruct (frame_end_c1 (frame_at pr o (p_order pr))) as [Hc _]. apply c1_cA in Hc.
+  rewrite frame_at_cA in Hc. unfold cA in Hc. injection Hc; intros; congruence.
+Qed.
+
+(* one frame: the published state stays or moves along an edge *)
+Lemma frame_client_edge pr o :
+  next_client_legal pr ->
+  s_client (frame pr o) = s_client pr \/ cedge (s_client pr) (s_client (frame pr o)).
+Proof.
+  intros H. destruct (p_panic pr) eqn:Hp; [erewrite frame_panicked; eauto|].
+  rewrite frame_s_client by auto. unfold next_client_legal in H.
+  destruct (s_next_client pr); cbn; auto.
+Qed.
+
+(* ---------- application operations ------------------------------------------------------------- *)
+
+(* what no application operation writes *)
+Definition AV {T F Q} (x : (cstate * sstate * option cstate * option sstate * bool * list sysid
+                            * gmap N bool * tick * gmap N tick) * T * F * Q) :=
+  let '((sc, ss, nc, ns, _, _, bits, tk, lr), _, f, q) := x in (sc, ss, nc, ns, bits, tk, lr, f, q).
+Notation av pr := (AV (g0 pr)).
+
+Lemma av_app_step pr op : av (app_step pr op) = av pr.
+Proof. destruct op; unfold app_step; proj_solve. Qed.
+
+Record app_spec (pr pr' : peer_state) : Prop := {
+  as_client : s_client pr' = s_client pr;
+  as_server : s_server pr' = s_server pr;
+  as_next_client : s_next_client pr' = s_next_client pr;
+  as_next_server : s_next_server pr' = s_next_server pr;
+  as_bits : p_cond_bit pr' = p_cond_bit pr;
+  as_tick : p_tick pr' = p_tick pr;
+  as_last_run : p_last_run pr' = p_last_run pr;
+  as_fin : p_finished_events pr' = p_finished_events pr;
+  as_cmdq : p_cmdq pr' = p_cmdq pr;
+}.
+
+Lemma app_step_spec pr op : app_spec pr (app_step pr op).
+Proof.
+  pose proof (av_app_step pr op) as H. unfold AV, g0, c1 in H.
+  injection H; intros. split; assumption.
+Qed.
+
+Lemma prun_inv (ok : app_op -> Prop) (P : peer_state -> Prop) :
+  (forall pr op, ok op -> P pr -> P (app_step pr op)) -> (forall pr o, P pr -> P (frame pr o)) ->
+  forall l pr, (forall op, inl op ∈ l -> ok op) -> P pr -> P (prun pr l).
+Proof.
+  intros Ha Hf. induction l as [|[op|o] l IH]; intros pr Hok Hpr; cbn [prun]; [exact Hpr| |].
+  - apply IH; [intros; apply Hok; right; auto|]. apply Ha; [apply Hok; left|exact Hpr].
+  - apply IH; [intros; apply Hok; right; auto|]. apply Hf, Hpr.
+Qed.
+
+Lemma prun_inv' (P : peer_state -> Prop) :
+  (forall pr op, P pr -> P (app_step pr op)) -> (forall pr o, P pr -> P (frame pr o)) ->
+  forall l pr, P pr -> P (prun pr l).
+Proof. intros Ha Hf l pr. apply (prun_inv (fun _ => True)); auto. Qed.
+
+Lemma prun_next_client_legal id st rg ord l : next_client_legal (prun (init_peer id st rg ord) l).
+Proof.
+  apply prun_inv'; [| apply frame_next_client_legal | exact I].
+  intros pr op. unfold next_client_legal. destruct (app_step_spec pr op). congruence.
+Qed.
+
+(* Every change of the published ClientState between two consecutive points of a run (an
+   application operation or a whole frame) is one of Disconnected->Connecting,
+   Connecting->Connected, Connected->Disconnected, Connecting->Disconnected. *)
+Theorem client_state_path id st rg ord l x :
+  let pr := prun (init_peer id st rg ord) l in
+  let pr' := prun pr [x] in
+  s_client pr' = s_client pr \/ cedge (s_client pr) (s_client pr').
+Proof.
+  cbv zeta. destruct x as [op|o]; cbn [prun].
+  - left. apply app_step_spec.
+  - apply frame_client_edge, prun_next_client_legal.
+Qed.
+
+(* in particular Disconnected -> Connected and Connected -> Connecting never happen *)
+Corollary client_never_skips_connecting id st rg ord l o :
+  let pr := prun (init_peer id st rg ord) l in
+  (s_client pr = CliDisconnected -> s_client (frame pr o) <> CliConnected)
+  /\ (s_client pr = CliConnected -> s_client (frame pr o) <> CliConnecting).
+Proof.
+  cbv zeta. pose proof (client_state_path id st rg ord l (inr o)) as H. cbn [prun] in H.
+  split; intros E E'; rewrite E, E' in H; destruct H as [H|H]; try discriminate; exact H.
+Qed.
+
+(* ================================================================================================ *)
+(* 2. connected_only_after_transport_connected                                                       *)
+(* ================================================================================================ *)
+
+Lemma next_client_connected_witness st o l :
+  s_next_client st <> Some CliConnected ->
+  s_next_client (run_systems st l o) = Some CliConnected ->
+  exists l1 l2, l = l1 ++ SCliVerify :: l2 /\
+    let m := run_systems st l1 o in
+    p_panic m = None /\ fires m SCliVerify = true /\ n_status m = RConnected.
+Proof.
+  intros H0. apply (run_systems_ind (fun l m => s_next_client m = Some CliConnected ->
+    exists l1 l2, l = l1 ++ SCliVerify :: l2 /\
+      let m := run_systems st l1 o in p_panic m = None /\ fires m SCliVerify = true /\ n_status m = RConnected)).
+  { intros H; contradiction. }
+  clear l. intros l s m Em IH H.
+  assert (s_next_client m = Some CliConnected -> exists l1 l2, l ++ [s] = l1 ++ SCliVerify :: l2 /\
+      let m := run_systems st l1 o in p_panic m = None /\ fires m SCliVerify = true /\ n_status m = RConnected) as IH'.
+  { intros Hm. destruct (IH Hm) as (l1 & l2 & -> & Hw). exists l1, (l2 ++ [s]).
+    split; [rewrite <- app_assoc; reflexivity|exact Hw]. }
+  destruct (p_panic m) eqn:Hp; [erewrite run_system_panicked in H by eauto; auto|].
+  destruct (decide (s = SSync)) as [->|Hs].
+  { rewrite run_system_sync in H by auto. destruct (flush_c1 m) as [Hc _].
+    unfold c1 in Hc. injection Hc; intros. apply IH'. congruence. }
+  destruct (run_system_spec m s o Hp Hs). rewrite ps_next_client0 in H.
+  destruct s; try (apply IH'; exact H); unfold next_client_after in H.
+  - destruct (fires m SCliConnecting); [discriminate|exact (IH' H)].
+  - destruct (fires m SCliVerify) eqn:Hf; [|exact (IH' H)]. destruct (n_status m) eqn:Hn; cbn in H; try exact (IH' H).
+    exists l, []. split; [reflexivity|]. cbv zeta. rewrite <- Em. auto.
+  - destruct (fires m SCliDisconnected); [discriminate|exact (IH' H)].
+Qed.
+
+(* ClientState becomes Connected in frame k+1 only if in frame k verify_client_connected ran,
+   in state Connecting, with a client transport present and the renet client reporting
+   Connected: never "Connected before the transport is connected". *)
+Theorem connected_only_after_transport_connected pr o o' :
+  s_client (frame pr o) <> CliConnected ->
+  s_client (frame (frame pr o) o') = CliConnected ->
+  exists l1 l2, p_order pr = l1 ++ SCliVerify :: l2 /\
+    let m := frame_at pr o l1 in
+    p_panic m = None /\ n_setup m = true /\ n_cli_transport m <> None
+    /\ s_client m = CliConnecting /\ n_status m = RConnected.
+Proof.
+  intros H1 H2.
+  destruct (p_panic (frame pr o)) eqn:Hp1; [erewrite frame_panicked in H2 by eauto; contradiction|].
+  destruct (p_panic pr) eqn:Hp; [erewrite frame_panicked in Hp1 by eauto; congruence|].
+  rewrite frame_s_client in H2 by auto.
+  destruct (s_next_client (frame pr o)) as [c|] eqn:Hn; cbn in H2; [subst c|contradiction].
+  rewrite frame_unfold in Hn by auto.
+  destruct (frame_end_c1 (frame_at pr o (p_order pr))) as [Hc _].
+  assert (s_next_client (frame_at pr o (p_order pr)) = Some CliConnected) as Hn'.
+  { unfold c1 in Hc. injection Hc; intros. congruence. }
+  unfold frame_at in Hn'. apply next_client_connected_witness in Hn'.
+  2:{ rewrite (ss_next_client _ _ _ (frame_start_spec pr o)). discriminate. }
+  destruct Hn' as (l1 & l2 & Ho & Hpm & Hf & Hs). exists l1, l2. split; [exact Ho|].
+  cbv zeta. fold (frame_at pr o l1) in *. unfold fires in Hf.
+  destruct (n_setup (frame_at pr o l1)); [|discriminate].
+  destruct (n_cli_transport (frame_at pr o l1)); [|discriminate].
+  destruct (s_client (frame_at pr o l1)); try discriminate. repeat split; auto.
+Qed.
+
+(* ================================================================================================ *)
+(* 3. the published states follow the transports within two frames                                   *)
+(* ================================================================================================ *)
+
+(* one schedule position, any system (SSync included), on the fields the state machines read *)
+Record step_spec (pr : peer_state) (s : sysid) (pr' : peer_state) : Prop := {
+  st_next_client : s_next_client pr' = next_client_after pr s;
+  st_next_server : s_next_server pr' = next_server_after pr s;
+  st_bits : p_cond_bit pr' = bits_after pr s;
+  st_clock : clock_le pr pr';
+  st_last_run : forall k, k <> sys_key s -> k <> ckey (sys_key s) -> p_last_run pr' !! k = p_last_run pr !! k;
+  st_fin : s <> SCliPoll -> p_finished_events pr' = fin_after pr s pr';
+}.
+
+Lemma run_system_step pr s o : p_panic pr = None -> step_spec pr s (run_system pr s o).
+Proof.
+  intros Hp. destruct (decide (s = SSync)) as [->|Hs].
+  - rewrite run_system_sync by auto. destruct (flush_c1 pr) as [Hc Hf].
+    unfold c1 in Hc. injection Hc; intros.
+    split; cbn; try congruence. split; [lia|]. intros k t. rewrite H. auto.
+  - destruct (run_system_spec pr s o Hp Hs). split; auto.
+Qed.
+
+Lemma bitupd_other k k' ex m : k <> k' -> default false (bitupd k ex m !! k') = default false (m !! k').
+Proof.
+  intros Hne. unfold bitupd. destruct ex; [rewrite lookup_insert_ne by auto; reflexivity|].
+  destruct (default false (m !! k)); [rewrite lookup_insert_ne by auto|]; reflexivity.
+Qed.
+
+Lemma bit_after_other pr s pr' k :
+  p_cond_bit pr' = bits_after pr s ->
+  (k = 25 -> s <> SCliDisconnected) -> (k = 11 -> s <> SSrvDisconnected) -> bit pr' k = bit pr k.
+Proof.
+  intros H H25 H11. unfold bit. rewrite H. unfold bits_after.
+  destruct s; try reflexivity; apply bitupd_other; intros <-; [apply H11|apply H25]; reflexivity.
+Qed.
+
+(* prefixes of the executable order *)
+Lemma prefix_snoc {A} (l : list A) s ord : (exists l2, ord = (l ++ [s]) ++ l2) -> exists l2, ord = l ++ l2.
+Proof. intros [l2 ->]. exists (s :: l2). rewrite <- app_assoc. reflexivity. Qed.
+
+Lemma frame_at_no_panic pr o l l2 :
+  p_order pr = l ++ l2 -> p_panic (frame pr o) = None -> p_panic (frame_at pr o l) = None.
+Proof.
+  intros Ho Hp.
+  destruct (p_panic pr) eqn:Hp0; [erewrite frame_panicked in Hp by eauto; congruence|].
+  rewrite frame_unfold in Hp by auto. unfold frame_at in *. rewrite Ho in Hp.
+  destruct (p_panic (run_systems (frame_start pr o) (l ++ l2) o)) eqn:E.
+  - unfold frame_end in Hp. rewrite E in Hp. cbn in Hp. congruence.
+  - exact (run_systems_no_panic _ l l2 o E).
+Qed.
+
+Lemma frame_next_client pr o :
+  p_panic pr = None -> s_next_client (frame pr o) = s_next_client (frame_at pr o (p_order pr)).
+Proof.
+  intros Hp. rewrite frame_unfold by auto.
+  destruct (frame_end_c1 (frame_at pr o (p_order pr))) as [Hc _].
+  unfold c1 in Hc. injection Hc; intros. congruence.
+Qed.
+
+Lemma frame_next_server pr o :
+  p_panic pr = None -> s_next_server (frame pr o) = s_next_server (frame_at pr o (p_order pr)).
+Proof.
+  intros Hp. rewrite frame_unfold by auto.
+  destruct (frame_end_c1 (frame_at pr o (p_order pr))) as [Hc _].
+  unfold c1 in Hc. injection Hc; intros. congruence.
+Qed.
+
+Lemma frame_at_fields pr o l :
+  s_client (frame_at pr o l) = default (s_client pr) (s_next_client pr)
+  /\ s_server (frame_at pr o l) = default (s_server pr) (s_next_server pr)
+  /\ n_setup (frame_at pr o l) = n_setup pr /\ p_order (frame_at pr o l) = p_order pr.
+Proof. pose proof (frame_at_cA pr o l) as H. unfold cA in H. injection H; auto. Qed.
+
+(* The client transport is absent during a whole frame, and resource_removed had seen it
+   present (its `existed` bit is set): the next state written in this frame is Disconnected
+   unless the state already is. *)
+Lemma client_removal_frame pr o :
+  p_panic (frame pr o) = None -> n_setup pr = true -> SCliDisconnected ∈ p_order pr ->
+  bit pr 25 = true ->
+  during pr o (fun m => n_cli_transport m = None) ->
+  s_next_client (frame pr o) =
+    if is_cli_disconnected (default (s_client pr) (s_next_client pr)) then None else Some CliDisconnected.
+Proof.
+  intros Hp Hs Hin Hb Hd.
+  assert (p_panic pr = None) as Hp0.
+  { destruct (p_panic pr) eqn:E; [erewrite frame_panicked in Hp by eauto; congruence|reflexivity]. }
+  rewrite frame_next_client by auto.
+  set (c := default (s_client pr) (s_next_client pr)).
+  assert (forall l, (exists l2, p_order pr = l ++ l2) ->
+    let m := frame_at pr o l in
+    if is_cli_disconnected c then s_next_client m = None
+    else (SCliDisconnected ∉ l -> s_next_client m = None /\ bit m 25 = true)
+         /\ (SCliDisconnected ∈ l -> s_next_client m = Some CliDisconnected)) as Hinv.
+  { intros l. unfold frame_at.
+    apply (run_systems_ind (fun l m => (exists l2, p_order pr = l ++ l2) ->
+      if is_cli_disconnected c then s_next_client m = None
+      else (SCliDisconnected ∉ l -> s_next_client m = None /\ bit m 25 = true)
+           /\ (SCliDisconnected ∈ l -> s_next_client m = Some CliDisconnected))).
+    - intros _. destruct (frame_start_spec pr o).
+      destruct (is_cli_disconnected c); [auto|]. split.
+      + intros _. split; [auto|]. unfold bit. rewrite ss_bits0. exact Hb.
+      + intros H. inversion H.
+    - clear l. intros l s m Em IH Hpre. specialize (IH (prefix_snoc _ _ _ Hpre)).
+      destruct Hpre as [l2 Hpre]. rewrite <- app_assoc in Hpre. cbn [app] in Hpre.
+      fold (frame_at pr o l) in Em.
+      assert (p_panic m = None) as Hpm by (subst m; eapply frame_at_no_panic; eauto).
+      assert (n_cli_transport m = None) as Htm by (subst m; eapply Hd; eauto).
+      destruct (frame_at_fields pr o l) as (Hc & _ & Hsm & _). rewrite <- Em in Hc, Hsm. fold c in Hc.
+      destruct (run_system_step m s o Hpm) as [Hnc _ Hbits _ _ _].
+      assert (s <> SCliDisconnected -> next_client_after m s = s_next_client m) as Hother.
+      { intros Hne. destruct s; try reflexivity; try congruence; unfold next_client_after, fires, cli_added;
+          rewrite Htm; cbn; rewrite ?andb_false_r; reflexivity. }
+      destruct (is_cli_disconnected c) eqn:Hcd.
+      + rewrite Hnc. destruct (decide (s = SCliDisconnected)) as [->|Hne]; [|rewrite Hother; auto].
+        unfold next_client_after, fires. rewrite Hc, Hcd, andb_false_r. exact IH.
+      + destruct IH as [IH1 IH2]. destruct (decide (s = SCliDisconnected)) as [->|Hne].
+        * split; [intros Hn; exfalso; apply Hn, elem_of_app; right; left|]. intros _.
+          rewrite Hnc. unfold next_client_after, fires. rewrite Hsm, Hs, Hc, Hcd, Htm. cbn.
+          destruct (decide (SCliDisconnected ∈ l)) as [Hl|Hl].
+          -- rewrite (IH2 Hl). destruct (bit m 25); reflexivity.
+          -- destruct (IH1 Hl) as [_ ->]. reflexivity.
+        * rewrite Hnc, (Hother Hne). split.
+          -- intros Hn. assert (SCliDisconnected ∉ l) as Hl by (intros Hl; apply Hn, elem_of_app; auto).
+             destruct (IH1 Hl) as [-> Hb']. split; [reflexivity|].
+             rewrite (bit_after_other m s _ 25 Hbits); [exact Hb'|congruence|discriminate].
+          -- intros Hn. apply elem_of_app in Hn as [Hl|Hl]; [auto|].
+             apply elem_of_list_singleton in Hl. congruence. }
+  specialize (Hinv (p_order pr) (ex_intro _ [] (eq_sym (app_nil_r _)))). cbv zeta in Hinv.
+  destruct (is_cli_disconnected c); [exact Hinv|]. apply Hinv, Hin.
+Qed.
+
+(* Removal is noticed: if the application removes the client transport while the published
+   state is not Disconnected, resource_removed had seen the transport, and no new transport
+   appears during the next frame, then after two frames (any oracles) the state is Disconnected. *)
+Theorem client_back_to_disconnected_within_two_frames pr o1 o2 :
+  let pr0 := app_step pr ORemoveTransports in
+  n_setup pr = true -> SCliDisconnected ∈ p_order pr -> bit pr 25 = true ->
+  during pr0 o1 (fun m => n_cli_transport m = None) ->
+  p_panic (frame pr0 o1) = None ->
+  s_client (frame (frame pr0 o1) o2) = CliDisconnected.
+Proof.
+  cbv zeta. intros Hs Hin Hb Hd Hp.
+  set (pr0 := app_step pr ORemoveTransports) in *.
+  assert (p_panic pr0 = None) as Hp0.
+  { destruct (p_panic pr0) eqn:E; [erewrite frame_panicked in Hp by eauto; congruence|reflexivity]. }
+  pose proof (client_removal_frame pr0 o1 Hp Hs Hin Hb Hd) as Hn.
+  rewrite frame_s_client by auto. rewrite Hn. rewrite frame_s_client by auto.
+  destruct (default (s_client pr0) (s_next_client pr0)); reflexivity.
+Qed.
